@@ -181,6 +181,8 @@ StepAttempt(st, e) ==
        IF e.esc # st2.abort THEN Res(st2, "attempt: a spec load must abort with " \o st2.abort \o ", implementation: " \o e.esc)
        ELSE Res(st2, "")
   ELSE IF e.out.o = "nospec" THEN Res(st2, "attempt: evaluation stopped at an unknown input although its form's inputs were loadable")
+  ELSE IF \E k \in 1..Len(e.reads) : e.reads[k][1] = "in" /\ e.reads[k][2] \in st2.specs /\ e.reads[k][2] \notin DOMAIN st2.cfg
+       THEN Res(st2, "attempt: line " \o e.line \o " was handed a value for an input that was never supplied (stale or phantom read; a needed input is missing)")
   ELSE IF \E k \in 1..Len(e.reads) : ~ReadOk(st2, e.reads[k])
        THEN Res(st2, "attempt: line " \o e.line \o " read a value that differs from the store (stale or phantom read)")
   ELSE IF ~OutcomePossible(st2, e.out) THEN Res(st2, "attempt: outcome " \o e.out.o \o " of " \o e.line \o " is impossible in the current state")
